@@ -91,14 +91,32 @@ class State:
         return s
 
 
-def _no_inline():
-    import json, os
+def some_of(rv):
+    """The payload of an Option-valued hole on the path where it is Some."""
+    return H("some-of", (rv.get("src") or "") + ".some", of=rv, ty=(re.match(r"Option<(.*)>$", rv.get("ty") or "") or [None, None])[1])
 
-    try:
-        d = json.load(open(os.path.join(F.VERIF, "spec", "sanitisers.json")))
-        return {e["fn"] for e in d["sanitisers"]}
-    except OSError:
-        return set()
+
+def option_label(lab, seen):
+    """'Some' / 'None' when the pattern label is an Option pattern (a catch-all after one of them is the other one)."""
+    if len(lab) != 1 or not isinstance(lab[0], str):
+        return None
+    x = lab[0]
+    if x == "None":
+        return "None"
+    if x.startswith("Some("):
+        return "Some"
+    if x == "_" and seen == {"Some"}:
+        return "None"
+    if x == "_" and seen == {"None"}:
+        return "Some"
+    return None
+
+
+def _no_inline(facts):
+    """Verified character maps (escaping helpers) stay visible as call holes."""
+    from . import sanitise
+
+    return set(sanitise.discover(facts).keys())
 
 
 class Interp:
@@ -106,7 +124,7 @@ class Interp:
         self.f = facts
         self.depth = 0
         self.maxdepth = 12
-        self.no_inline = _no_inline()
+        self.no_inline = _no_inline(facts)
 
     # -------------------------------------------------------------- helpers
     def payload_type(self, enum, variant, idx):
@@ -134,6 +152,10 @@ class Interp:
             for i, e in enumerate(p["elems"]):
                 if val.get("v") == "some" and variant == "Some":
                     self.bind_pattern(e, val["x"], st)
+                    continue
+                if variant == "Some" and len(p["segs"]) == 1 and isinstance(val, dict) and val.get("v") == "hole":
+                    base = val["of"] if val.get("kind") == "matched" and isinstance(val.get("of"), dict) else val
+                    self.bind_pattern(e, some_of(base), st)
                     continue
                 ty = self.payload_type(enum, variant, i) if enum in self.f.enums else None
                 if ty is None and isinstance(val, dict) and val.get("ty"):
@@ -354,6 +376,25 @@ class Interp:
         if cond["k"] == "letexpr":
             # if let PAT = EXPR
             for s1, v in self.ev(cond["e"], st):
+                ol = option_label(self.pat_label(cond["pat"]), set()) if isinstance(v, dict) and v.get("v") == "hole" else None
+                if ol is not None:
+                    a = s1.fork()
+                    a.conds = a.conds + ((canon(v), ol),)
+                    self.bind_pattern(cond["pat"], v, a)
+                    out += self.ev(e["then"], a)
+                    b = s1.fork()
+                    b.conds = b.conds + ((canon(v), "None" if ol == "Some" else "Some"),)
+                    out += self.ev(e["else"], b) if e["else"] is not None else [(b, {"v": "unit"})]
+                    continue
+                if isinstance(v, dict) and v.get("v") in ("some", "none") and option_label(self.pat_label(cond["pat"]), set()) is not None:
+                    hit = (v["v"] == "some") == (option_label(self.pat_label(cond["pat"]), set()) == "Some")
+                    if hit:
+                        a = s1.fork()
+                        self.bind_pattern(cond["pat"], v, a)
+                        out += self.ev(e["then"], a)
+                    else:
+                        out += self.ev(e["else"], s1) if e["else"] is not None else [(s1, {"v": "unit"})]
+                    continue
                 a = s1.fork()
                 a.conds = a.conds + ((canon(v), "matches " + self.pat_canon(cond["pat"])),)
                 self.bind_pattern(cond["pat"], v if v.get("v") != "hole" else H("matched", src(cond["e"]), of=v), a)
@@ -380,10 +421,20 @@ class Interp:
         for s1, sv in self.ev(e["scrut"], st):
             # literal scrutinee: select statically when possible
             remaining = None  # variants not yet taken by an earlier arm (for the catch-all)
+            is_opt = isinstance(sv, dict) and sv.get("v") == "hole" and any(self.pat_label(a_["pat"])[0] in ("None",) or str(self.pat_label(a_["pat"])[0]).startswith("Some(") for a_ in e["arms"] if len(self.pat_label(a_["pat"])) == 1)
+            seen_opt = set()
             for arm in e["arms"]:
                 a = s1.fork()
                 lab = self.pat_label(arm["pat"])
                 scr = canon(sv)
+                if is_opt and arm["guard"] is None:
+                    ol = option_label(lab, seen_opt)
+                    if ol is not None:
+                        seen_opt.add(ol)
+                        a.conds = a.conds + ((scr, ol),)
+                        self.bind_pattern(arm["pat"], sv, a)
+                        out += self.ev(arm["body"], a)
+                        continue
                 # path feasibility: an earlier condition on the same scrutinee restricts the variants that can occur here
                 prior = [c[1] for c in s1.conds if c[0] == scr and isinstance(c[1], tuple)]
                 if prior and all(isinstance(x, str) and "::" in x for x in lab):
@@ -539,7 +590,7 @@ class Interp:
             self.bind_pattern(p, v, s1)
         out = []
         for s2, v in self.ev(node["body"], s1):
-            s2.env = saved
+            s2.env = dict(saved)
             out.append((s2, v))
         return out
 
@@ -551,6 +602,7 @@ class Interp:
         inline = (
             out_ty in ("String", "&'staticstr", "&str", "CResult<&'staticstr>", "CResult<Option<String>>", "CResult", "CResult<()>", "()", "u32", "OpenPort", "Option<Mode>")
             or "String" in out_ty
+            or out_ty.startswith("Box<dyn")
         )
         if not inline:
             return [(st, H("call", src(callnode), callee=key, args=argv, ty=out_ty))]
@@ -569,7 +621,7 @@ class Interp:
             out = []
             for s2, v in self.exec_block(fn.body["stmts"], s1):
                 rv = s2.ret if s2.ret is not None else v
-                s2.env = saved_env
+                s2.env = dict(saved_env)
                 s2.ret = saved_ret
                 if isinstance(rv, dict) and rv.get("v") == "panic":
                     s2.ret = rv
@@ -619,7 +671,7 @@ class Interp:
             if m == "to_string" and k in ("hole", "affine", "char"):
                 return [(st, S([("h", rv)]))]
             return [(st, rv)]
-        if k in ("ok", "err", "some", "none") or (k == "hole" and m in ("and_then",) and argv and argv[0].get("v") == "closure"):
+        if k in ("ok", "err", "some", "none") or (k == "hole" and m in ("and_then", "map") and argv and argv[0].get("v") in ("closure", "fn") and self._optionish(rv)):
             r = self.optres(e, m, rv, argv, st)
             if r is not None:
                 return r
@@ -728,6 +780,20 @@ class Interp:
         # symbolic method call
         return [(st, H("mcall", src(e), method=m, recv=rv, args=argv, ty=self._mret(rv, m)))]
 
+    def _optionish(self, rv):
+        ty = rv.get("ty") or ""
+        if ty.startswith("Option<"):
+            return True
+        # a field projection of a struct parameter: look the field type up
+        if rv.get("kind") == "proj" and isinstance(rv.get("of"), dict):
+            st_ty = (rv["of"].get("ty") or "").split("::")[-1]
+            sd = self.f.structs.get(st_ty)
+            if sd:
+                for f_ in sd.get("fields", []):
+                    if f_.get("name") == rv.get("field"):
+                        return norm_ty(f_["ty"]).startswith("Option<")
+        return rv.get("kind") in ("lookup",) or False
+
     def _mret(self, rv, m):
         return None
 
@@ -790,10 +856,12 @@ class Interp:
                 return [(st, {"v": "bool", "b": False, "src": src(e)})]
             if m in ("is_none",):
                 return [(st, {"v": "bool", "b": True, "src": src(e)})]
-        if k == "hole" and m == "and_then" and argv:
+        if k == "hole" and m in ("and_then", "map") and argv:
             a = st.fork()
             a.conds = a.conds + ((canon(rv), "Some"),)
-            res = list(apply(argv[0], H("some-of", (rv.get("src") or "") + ".some", of=rv, ty=(re.match(r"Option<(.*)>$", rv.get("ty") or "") or [None, None])[1]), a))
+            res = list(apply(argv[0], some_of(rv), a))
+            if m == "map":
+                res = [(s2, {"v": "some", "x": v}) for s2, v in res]
             b = st.fork()
             b.conds = b.conds + ((canon(rv), "None"),)
             res.append((b, {"v": "none"}))
@@ -816,7 +884,7 @@ class Interp:
             out = []
             for s2, v in self.exec_block(fn.body["stmts"], s1):
                 rv = s2.ret if s2.ret is not None else v
-                s2.env = saved_env
+                s2.env = dict(saved_env)
                 s2.ret = saved_ret
                 out.append((s2, rv))
             return out
@@ -848,6 +916,9 @@ class Interp:
         if k == "expr":
             out = []
             for s1, v in self.ev(s_["e"], st):
+                if not (last and not s_.get("semi")) and isinstance(v, dict) and v.get("v") == "hole" and v.get("kind") in ("mcall", "call", "mgr"):
+                    # a call whose result is dropped (or only `?`-checked): kept as an observable event of the path
+                    s1.effects.append(("call", v))
                 out.append((s1, v if (last and not s_.get("semi")) else {"v": "unit"}))
             return out
         if k == "item":
@@ -1286,6 +1357,9 @@ def tainted(h, depth=0):
             return [canon(h)]
         if k == "param" and ("AsRef<str>" in ty or ty in ("S", "&S")):
             return [canon(h)]
+        return []
+    if k == "cast" and norm_ty(h.get("to") or ty) in ("u8", "u16", "u32", "u64", "u128", "usize", "i8", "i16", "i32", "i64", "i128", "isize"):
+        # an integer is rendered with digits (or hex digits) only: whatever it was computed from, its text is not user text
         return []
     if k in ("call", "mcall", "cast", "expr", "unwrap", "proj", "debug", "matched", "some-of"):
         out = []
